@@ -69,6 +69,19 @@ fn main() {
                 std::process::exit(2);
             }
             let ctx = mon::take_ctx();
+            if prop == "C18" {
+                rep.distinct_nontrivial = ctx.calls.len() as u64;
+                let mut req: Vec<&str> = props::c18::REQUIRED_ENTRIES.to_vec();
+                #[cfg(feature = "std")]
+                req.extend_from_slice(props::c18::REQUIRED_ENTRIES_STD);
+                for e in req {
+                    if ctx.calls.get(e).copied().unwrap_or(0) == 0 {
+                        rep.inconclusive(format!("required API entry point was never exercised: {}", e));
+                    }
+                }
+                rep.count("api_regions_checked_for_allocation_and_panic", ctx.calls.values().sum::<u64>());
+                rep.count("distinct_api_entry_points", ctx.calls.len() as u64);
+            }
             // monitor hits -> violations of the property being checked
             for h in &ctx.hits {
                 let rp = json!({"kind":"monitor-hit","monitor":format!("{:?}", h.kind),"entry":h.entry,"case":h.case,"detail":h.detail});
@@ -136,6 +149,11 @@ fn main() {
                 }),
             );
             std::fs::write(&out, serde_json::to_string_pretty(&j).unwrap()).expect("write result");
+        }
+        "alloc-audit" => {
+            let n: u64 = args.get(2).and_then(|s| s.parse().ok()).unwrap_or(1000);
+            let acc = props::c18::alloc_audit(n);
+            println!("alloc-audit n={} checksum={} harness_counted_allocs={}", n, acc, mon::alloc_calls());
         }
         _ => usage(),
     }
